@@ -96,7 +96,11 @@ class TriangleSet(primitive.Primitive):
         self.index = index
         self.indices = self.index
         self.nindices = max_offset + 1
-        self.index.shape = (-1, 3, self.nindices)
+        try:
+            self.index.shape = (-1, 3, self.nindices)
+        except ValueError:
+            raise DaeMalformedError('Triangle set index of size %d is not a multiple of 3 corners x %d inputs'
+                                    % (self.index.size, self.nindices))
         self.ntriangles = len(self.index)
         self.sources = sources
 
